@@ -14,27 +14,45 @@ from . import _c12_helpers as H
 
 PROPERTY = "C12"
 RULE = (
-    "handle cells: for each of the ten losses, vectors of (data value in the loss's data domain, model value in "
-    "[lower bound, ...) incl. 0 for bounded losses, extra parameter) drawn by Hypothesis; oracle = complex-step "
-    "derivative (h=1e-30) of function_handle for the nine analytic losses, Richardson central differences for "
-    "Huber (kept 2% of the threshold away from the kink).  evaluate cells: loss x unit-weight Kruskal model (N 2..5, "
-    "R 1..4, non-cubical, zero entries) x dense/sparse data x weights none/mask/positive; oracle = sum of w*f and "
-    "einsum of w*g on den(model), and <G[k],V> = directional derivative of the objective recomputed by me "
-    "(complex step through the Kruskal sum).  mttkrps: == per-mode mttkrp and == einsum definition (integer data "
-    "exact).  estimate: all subscripts in generated order / arbitrary sample multisets with weights and "
-    "correction range; oracle = per-sample loop.  Non-trivial: N>=3, R>=2 and non-constant data (tensor "
-    "cells); data value not 0 and model value not 0 (handle cells)."
+    "handle cells: for each of the ten losses, vectors of (data value in the loss's data domain incl. magnitudes "
+    "1e-6..1e6, model value in [lower bound, ...) incl. 0 for bounded losses, extra parameter over its range, also a "
+    "Python int for num_trials) drawn by Hypothesis; integer-valued data also held in int64/int32/uint8/uint16 (bool "
+    "for the Bernoulli losses) and compared with its float64 image; oracle = complex-step derivative (h=1e-30) of "
+    "function_handle for the nine analytic losses, Richardson central differences for Huber (kept 2% of the "
+    "threshold away from the kink); a second setup with another parameter leaves the first pair alone and carries "
+    "its own parameter.  evaluate cells: loss x Kruskal model (N 2..5, R 1..4, non-cubical, zero entries; fresh or "
+    "after copy / weight absorption (C-ordered factor) / permute, and weighted: explicit weights / normalize / "
+    "arrange) x dense (constructor F/C input, grown) / sparse (stored order, NumPy-int shape, stored zeros) data in "
+    "float or integer dtype x weights none / mask (float, int64, bool, uint8) / positive in C or F order; oracle = "
+    "sum of w*f over den(model) and, for unit-weight models, einsum of w*g and <G[k],V> = directional derivative of "
+    "the objective recomputed by me (complex step through the Kruskal sum).  mttkrps: == per-mode mttkrp and == "
+    "einsum definition (integer data exact; integer-typed tensors and factor lists, mixed with float).  estimate: "
+    "all subscripts in generated order / arbitrary sample multisets with weights and correction range, values / "
+    "subscripts / sample weights in integer dtypes, lambda_check default/True/False, weighted models with the check "
+    "on; oracle = per-sample loop on den(model) incl. weights; gradients w.r.t. the unit-weight factor matrices the "
+    "model has after the call.  Non-trivial: N>=3, R>=2 and non-constant data (tensor cells); data value not 0 and "
+    "model value not 0 (handle cells)."
 )
 ASSUMPTIONS = [
-    "models have unit Kruskal weights (evaluate/estimate document that assumption: lambda_check)",
+    "factor-matrix gradients are specified for unit-weight models (fg.evaluate takes the model as is: for a weighted "
+    "model only its objective is checked; fg_est.estimate documents that its lambda check brings a weighted model to "
+    "unit weights - in place - and the returned gradients refer to those factor matrices; with lambda_check=False "
+    "only unit-weight models are generated)",
+    "after estimate the caller's model must denote the same tensor: either untouched or unit weights with the same "
+    "einsum within 64 (N+R+2) eps x the sum of absolute terms",
     "N >= 2: MTTKRP (hence the GCP gradient) is rejected by pyttb for 1-way tensors",
     "the handles' documented 1e-10 shift inside log/division is part of the loss: the derivative is taken of "
     "function_handle as implemented, so model value 0 is inside the domain of the bounded losses",
     "tolerances: 64 eps x (sum of absolute terms of f resp. df/dm) per entry, plus the handle's variation over "
-    "the rounding interval of the model value (8 (N+R) eps x Kruskal sum of absolute values); sums over n "
-    "entries get 64 n eps x sum of absolute summands.  Huber: rounding of a central difference, 8*err(f)/h",
+    "the rounding interval of the model value (8 (N+R) eps x Kruskal sum of absolute values, x2..x4 for weighted "
+    "models); sums over n entries get 64 n eps x sum of absolute summands.  Huber: rounding of a central difference, "
+    "8*err(f)/h.  All tolerances are relative (they scale with the data / model magnitude)",
     "Huber is checked at least 2% of the threshold away from |x-m| = threshold (not differentiable there)",
     "beta loss: b outside [-0.05,0.05] and [0.95,1.05] (the loss divides by b and b-1)",
+    "an integer dtype is used only when it holds every data value exactly; the derivative property is judged on the "
+    "float64 image and 'independent of data dtype' is a clause of its own (16 eps x term scale); float32 left out",
+    "setup's domain check (valid_binary / valid_nonneg look at the stored values of a sparse tensor) is not asserted "
+    "for sparse data that stores explicit zeros: whether a stored 0 passes it is outside C12",
 ]
 
 EPS = H.EPS
@@ -55,7 +73,37 @@ def _nb_case_has_x_not_1(case):
     return any(x != 1 and wi != 0 for x, wi in zip(data, w))
 
 
+def _case_data(case):
+    """(dtype name, data values) of a handle / evaluate / estimate case"""
+    if "x" in case:
+        return case.get("xdtype"), case["x"][:1] if case.get("form") == "scalar" else case["x"]
+    if "vals" in case:
+        return case.get("vdtype"), case["vals"] or []
+    if "order" in case:  # estimate/all-entries: the sample values are the data in dtype 'vdtype'
+        return case.get("vdtype"), case.get("data") or []
+    return case.get("ddtype"), case.get("data") or []
+
+
+def _held_in(case, dtypes):
+    """the case's data is integer-valued, fits the drawn dtype (so it is really held in it) and that dtype is listed"""
+    dt, vals = _case_data(case)
+    if dt not in dtypes or not vals:
+        return False
+    return all(v == int(v) and 0 <= v <= H.DTYPE_MAX.get(dt, 2**53) for v in vals)
+
+
+def _rayleigh_overflow(case):
+    dt, vals = _case_data(case)
+    limit = {"uint8": 16, "uint16": 256, "int32": 46341}.get(dt)
+    return case.get("loss") == "rayleigh" and limit is not None and _held_in(case, (dt,)) and any(v >= limit for v in vals)
+
+
 PREDICATES = {
+    "nb_int_trials_small_int_data": lambda case: case.get("loss") == "negative_binomial" and isinstance(case.get("param"), int)
+    and _held_in(case, ("uint8", "uint16", "int32")),
+    "gamma_unsigned_data": lambda case: case.get("loss") == "gamma" and _held_in(case, ("uint8", "uint16")) and any(
+        v != 0 for v in _case_data(case)[1]),
+    "rayleigh_square_overflows_dtype": _rayleigh_overflow,
     "nb_some_data_not_1": _nb_case_has_x_not_1,
     "ktensor_nonunit_weights": lambda case: case.get("ukind") == "ktensor" and any(w != 1 for w in case["uweights"]),
     "no_samples": lambda case: len(case.get("subs", [0])) == 0,
@@ -80,7 +128,12 @@ def _handle_strategy(name):
             xs = draw(st.lists(H.data_value(H.LOSSES[name]["data"]), min_size=n, max_size=n))
             ms = draw(st.lists(H.model_value(name), min_size=n, max_size=n))
         form = draw(st.sampled_from(["vector", "vector", "matrix", "scalar"]))
-        return dict(loss=name, param=p, x=xs, m=ms, form=form)
+        # integer-valued data is naturally held in an integer (binary data also in a boolean) array
+        xdtype = draw(st.sampled_from(H.data_dtypes(name)))
+        if name == "negative_binomial" and p == int(p) and draw(st.booleans()):
+            p = int(p)  # the number of trials given as a Python int
+        other = draw(H.param_strategy(name))
+        return dict(loss=name, param=p, x=xs, m=ms, form=form, xdtype=xdtype, other_param=other)
 
     return s
 
@@ -103,8 +156,12 @@ def _handle_body(ctx, case):
         x, m = x.reshape(1, -1), m.reshape(1, -1)
     elif case["form"] == "scalar":
         x, m = x[:1].reshape(()), m[:1].reshape(())
+    xf = x  # float64 image of the data
+    x = H.typed(xf, case.get("xdtype"))
+    if x.dtype == np.bool_ and not np.all(np.isin(xf, [0, 1])):
+        x = xf
     x0, m0 = x.copy(), m.copy()
-    ctx.label("form-" + case["form"])
+    ctx.label("form-" + case["form"], "x-dtype-" + str(x.dtype), "param-" + type(p).__name__)
     for xv in np.ravel(x):
         ctx.label(H.data_class(float(xv)))
     for mv in np.ravel(m):
@@ -114,16 +171,42 @@ def _handle_body(ctx, case):
         f = fh(x, m)
     with ctx.sut("gradient_handle"):
         g = gh(x, m)
-    ctx.check(np.array_equal(x, x0) and np.array_equal(m, m0), "handles-leave-arguments")
+    ctx.check(np.array_equal(x, x0) and x.dtype == x0.dtype and np.array_equal(m, m0), "handles-leave-arguments")
     f, g = np.asarray(f), np.asarray(g)
     ctx.require(f.shape == x.shape and g.shape == x.shape, "handle-result-shape", f"{f.shape} {g.shape} vs {x.shape}")
     ctx.require(bool(np.all(np.isfinite(f)) and np.all(np.isfinite(g))), "handle-finite-on-domain", f"{f} {g}")
-    sg = H.scale_g(name, x, m, p)
+    sg = H.scale_g(name, xf, m, p)
+    if x.dtype != np.float64:
+        # the same data values held in float64 must give the same loss and gradient values
+        with ctx.sut("handles-on-float64-image"):
+            ff, gf = np.asarray(fh(xf, m)), np.asarray(gh(xf, m))
+        ctx.check(H.within(f, ff, 16 * EPS * H.scale_f(name, xf, m, p) + 1e-300), "loss-independent-of-data-dtype",
+                  f"{x.dtype}: {H.worst(f, ff, 16 * EPS * H.scale_f(name, xf, m, p))}")
+        ctx.check(H.within(g, gf, 16 * EPS * sg + 1e-300), "gradient-independent-of-data-dtype",
+                  f"{x.dtype}: {H.worst(g, gf, 16 * EPS * sg)}")
+        ctx.require(ff.shape == x.shape and gf.shape == x.shape and bool(np.all(np.isfinite(ff)) and np.all(np.isfinite(gf))),
+                    "handle-finite-on-domain", f"{ff} {gf}")
+        f, g = ff, gf  # the derivative property is then judged on the float64 image
+    if H.LOSSES[name]["param"] is not None and case.get("other_param") is not None:
+        # a handle pair obtained earlier keeps its own parameter when setup is called again with another one
+        with ctx.sut("function_handle"):
+            fh_first, gh_first = fh(xf, m), gh(xf, m)
+        p2 = case["other_param"]
+        fh2, gh2, _ = _setup(ctx, name, p2)
+        with ctx.sut("function_handle"):
+            f2 = np.asarray(fh2(xf, m))
+        ctx.check(H.within(f2, H.param_loss(name, xf, m, p2), 64 * EPS * H.scale_f(name, xf, m, p2) + 1e-300),
+                  "each-setup-carries-its-own-parameter", f"p={p!r} then p={p2!r}")
+        with ctx.sut("function_handle"):
+            f_again, g_again = np.asarray(fh(xf, m)), np.asarray(gh(xf, m))
+        ctx.check(np.array_equal(f_again, np.asarray(fh_first)) and np.array_equal(g_again, np.asarray(gh_first)),
+                  "handles-keep-their-parameter-after-a-later-setup")
+    x = xf  # the derivative oracle below works on the float64 image
     if name == "huber":
         t = p
         h = np.full(m.shape, 1e-3 * t)
         with ctx.sut("function_handle-shifted"):
-            d = H.richardson(lambda mm: fh(x, mm), m, h)
+            d = H.richardson(lambda mm: fh(xf, mm), m, h)
         a = np.abs(x) + np.abs(m) + t
         ef = 16 * EPS * a * (2 * a)  # |f| <= a^2, df/d(x-m) <= 2a, rounding of x-m <= eps*a
         tol = 8 * ef / h + 64 * EPS * sg
@@ -195,20 +278,47 @@ def _grad_refs(A, Yg, tolY, w, N, R):
     return out
 
 
+def _model_labels(ctx, case, model, lam):
+    ctx.label("model-" + case.get("mprov", "ctor"), "model-weights-unit" if np.all(lam == 1) else "model-weights-nonunit")
+    if any(not f.flags["F_CONTIGUOUS"] for f in model.factor_matrices if f.ndim == 2 and min(f.shape) > 1):
+        ctx.label("model-has-C-ordered-factor")
+
+
+def _data_labels(ctx, data):
+    if isinstance(data, ttb.sptensor):
+        ctx.label("data-dtype-" + str(data.vals.dtype))
+        if not all(type(n) is int for n in data.shape):
+            ctx.label("data-shape-holds-numpy-ints")
+        if data.vals.size and np.any(data.vals == 0):
+            ctx.label("data-stores-explicit-zero")
+    else:
+        ctx.label("data-dtype-" + str(data.data.dtype))
+        if gen.is_grown(data):
+            ctx.label("data-buffer-not-F-ordered")
+
+
 def _evaluate_body(ctx, case):
     name, p = case["loss"], case["param"]
     fh, gh, lb = _setup(ctx, name, p)
-    A = H.build_factors(case)
+    model = H.build_model(case)
+    lam, A = H.read_model(model)  # the model as it stands (after the operations that produced it)
+    unit = bool(np.all(lam == 1))
     N, R = len(A), case["rank"]
-    M = H.kruskal_c(A)
-    dM = H.model_rounding(A)
+    Aw = A if unit else H.absorb(lam, A)
+    M = H.kruskal_c(Aw)
+    dM = H.model_rounding(Aw) * (1 if unit else 2)
     X = H.data_array(case, M)
     _labels(ctx, case, X)
     ctx.label("holder-" + case["holder"])
-    model = H.build_model(case)
+    _model_labels(ctx, case, model, lam)
     data = H.build_data(case, X)
-    w = H.weight_array(case)
-    w_in = None if w is None else w.copy()
+    _data_labels(ctx, data)
+    w_arr = H.weight_array(case)
+    w = None if w_arr is None else w_arr.astype(float)
+    if w_arr is not None:
+        ctx.label("weights-" + str(w_arr.dtype) + ("-F" if w_arr.flags["F_CONTIGUOUS"] and not w_arr.flags["C_CONTIGUOUS"]
+                                                  else ("-C" if not w_arr.flags["F_CONTIGUOUS"] else "-CF")))
+    w_in = None if w_arr is None else w_arr.copy(order="K")
     data_before = ref.den(data).copy()
 
     with ctx.sut("fg.evaluate"):
@@ -219,10 +329,11 @@ def _evaluate_body(ctx, case):
                 and all(isinstance(g, np.ndarray) and g.shape == a.shape for g, a in zip(G, A)),
                 "evaluate-result-types-and-shapes")
     # operands untouched
-    ctx.check(w is None or np.array_equal(w_in, w), "evaluate-leaves-weights")
+    ctx.check(w_arr is None or (np.array_equal(w_in, w_arr) and w_in.dtype == w_arr.dtype), "evaluate-leaves-weights")
     ctx.check(np.array_equal(ref.den(data), data_before), "evaluate-leaves-data")
-    ctx.check(all(np.array_equal(a, b) for a, b in zip(model.factor_matrices, A))
-              and np.array_equal(model.weights, np.ones(R)), "evaluate-leaves-model")
+    lam2, A2 = H.read_model(model)
+    ctx.check(len(A2) == N and all(a.shape == b.shape and np.array_equal(a, b) for a, b in zip(A2, A))
+              and np.array_equal(lam2, lam), "evaluate-leaves-model")
 
     pr = H.PointwiseRef(name, p, fh, gh, X, M, dM)
     # --- objective = weighted sum of the loss over all entries
@@ -230,6 +341,12 @@ def _evaluate_body(ctx, case):
     F_ref = float(np.sum(Yf))
     tolF = _sum_tol(w, pr.f, pr.tol_f)
     ctx.check(abs(F - F_ref) <= tolF, "objective-is-weighted-sum-of-loss", f"{F!r} vs {F_ref!r} tol {tolF:.3g}")
+    with ctx.sut("fg.evaluate-function-only"):
+        F1 = fg.evaluate(model, data, None if w_arr is None else w_arr.copy(order="K"), fh, None)
+    ctx.check(isinstance(F1, (float, np.floating)) and F1 == F, "function-only-call-agrees")
+    if not unit:
+        # (the factor-matrix gradients are specified for unit-weight models only, see ASSUMPTIONS)
+        return
     # --- gradients = MTTKRP of the weighted element-wise derivative
     refs = _grad_refs(A, pr.g, pr.tol_g, w, N, R)
     for k, (Gk, tk) in enumerate(refs):
@@ -274,15 +391,16 @@ def _evaluate_body(ctx, case):
         ctx.check(abs(got - want) <= tol + 1e-300, "gradient-is-derivative-of-objective",
                   f"mode {k}: <G,V>={got!r} vs dF/ds={want!r} tol {tol:.3g}")
     # --- single-output calls agree with the joint call
-    with ctx.sut("fg.evaluate-function-only"):
-        F1 = fg.evaluate(model, data, None if w is None else w.copy(), fh, None)
     with ctx.sut("fg.evaluate-gradient-only"):
-        G1 = fg.evaluate(model, data, None if w is None else w.copy(), None, gh)
-    ctx.check(isinstance(F1, (float, np.floating)) and F1 == F, "function-only-call-agrees")
+        G1 = fg.evaluate(model, data, None if w_arr is None else w_arr.copy(order="K"), None, gh)
     ctx.check(isinstance(G1, list) and len(G1) == N and all(np.array_equal(a, b) for a, b in zip(G1, G)),
               "gradient-only-call-agrees")
     # --- the domain check of setup accepts this data (only asserted for data pyttb documents as valid:
     #     strictly positive entries for the 'non-negative' losses)
+    stores_zero = isinstance(data, ttb.sptensor) and data.vals.size and bool(np.any(data.vals == 0))
+    if stores_zero:
+        # (setup's domain check looks at the stored values only; whether a stored 0 passes it is not part of C12)
+        return
     if not (H.LOSSES[name]["data"] == "nonneg" or name == "negative_binomial") or bool(np.all(X > 0)):
         with ctx.sut("fg_setup.setup-with-data"):
             fg_setup.setup(H.objective(name), data, p)
@@ -313,6 +431,10 @@ def _mttkrps_case(draw, tier):
         c["uweights"] = [1.0] * r if unit else draw(st.lists(gen.values(vk, nonzero=True), min_size=r, max_size=r))
     else:
         c["uweights"] = [1.0] * r
+    # integer-valued operands held in integer arrays, also mixed with float ones (a ktensor holds float factors)
+    c["tdtype"] = draw(st.sampled_from(["float64", "float64", "int64", "int32", "uint8"])) if vk == "int" else "float64"
+    c["udtype"] = (draw(st.sampled_from(["float64", "int64", "int32"]))
+                   if vk == "int" and c["ukind"] != "ktensor" else "float64")
     return c
 
 
@@ -323,13 +445,18 @@ def mttkrps(ctx, case):
     A = H.build_factors(case)
     Xa = gen.arr_F(shape, case["data"])
     T = gen.build_tensor(case)
+    Xt = H.typed(Xa, case.get("tdtype"))
+    if Xt.dtype != np.float64 and not gen.is_grown(T):  # (a grown tensor holds float64 data whatever it started from)
+        T = ttb.tensor(Xt.copy(order="F"), tuple(shape))
     lam = np.array(case["uweights"], dtype=float)
     if case["ukind"] == "ktensor":
         U = ttb.ktensor([a.copy() for a in A], lam.copy())
     elif case["ukind"] == "tuple":
-        U = tuple(a.copy() for a in A)
+        U = tuple(H.typed(a, case.get("udtype")).copy() for a in A)
     else:
-        U = [a.copy() for a in A]
+        U = [H.typed(a, case.get("udtype")).copy() for a in A]
+    ctx.label("tensor-" + str(T.data.dtype), "factors-" + str((U.factor_matrices if case["ukind"] == "ktensor" else U)[0].dtype),
+              "tensor-buffer-not-F-ordered" if gen.is_grown(T) else "tensor-buffer-F-ordered")
     unit = bool(np.all(lam == 1))
     ctx.label(*gen.shape_classes(shape), "U-" + case["ukind"], "unit-weights" if unit else "nonunit-weights",
               case["vkind"], f"rank{r}")
@@ -371,7 +498,45 @@ def _estimate_full_case(draw, tier):
     c = draw(H.problem(tier, holders=("dense",), with_weights=False, max_order=4))
     n = ref.prod(c["shape"])
     c["order"] = list(draw(st.permutations(range(n)))) if draw(st.booleans()) else list(range(n))
+    c.update(draw(_sample_forms()))
     return c
+
+
+@st.composite
+def _sample_forms(draw):
+    """array forms of a sample: dtype of the values (when integer-valued), of the subscripts, of the sample weights"""
+    return dict(vdtype=draw(st.sampled_from(H.DATA_DTYPES[:-1])), sdtype=draw(st.sampled_from(["int64", "int64", "int32", "uint32"])),
+                swdtype=draw(st.sampled_from(["float64", "float64", "int64"])))
+
+
+def _estimate_refs(case, model):
+    """the model as it stands before the call, and the reference factor matrices of its unit-weight form"""
+    lam, A = H.read_model(model)
+    unit = bool(np.all(lam == 1))
+    Aref = A if unit else H.normalize0_ref(lam, A)
+    return lam, A, unit, Aref
+
+
+def _check_model_after(ctx, model, lam, A, unit, Aref):
+    """what estimate may do to the caller's model: leave it alone (always so for unit weights), or - as the
+    lambda check announces - bring it to unit weights; it must denote the same tensor afterwards.  Returns the
+    factor matrices the returned gradients refer to."""
+    lam2, A2 = H.read_model(model)
+    same = len(A2) == len(A) and all(a.shape == b.shape and np.array_equal(a, b) for a, b in zip(A2, A)) and np.array_equal(lam2, lam)
+    if unit:
+        ctx.check(same, "estimate-leaves-model")
+        return A
+    if same:
+        ctx.label("weighted-model-left-alone")
+        return Aref
+    ctx.label("weighted-model-normalised-in-place")
+    ok = (len(A2) == len(A) and all(a.shape == b.shape for a, b in zip(A2, A)) and bool(np.all(lam2 == 1)))
+    if ok:
+        M_before = H.kruskal_c(H.absorb(lam, A))
+        bound = 64 * (len(A) + len(lam) + 2) * EPS * H.kruskal_c([np.abs(a) for a in H.absorb(lam, A)])
+        ok = H.within(H.kruskal_c(A2), M_before, bound + 1e-300)
+    ctx.check(ok, "normalised-model-has-unit-weights-and-denotes-the-same-tensor")
+    return A2 if ok else Aref
 
 
 @cell("C12/estimate/all-entries", strategy=_estimate_full_case, quick=400, thorough=8000, shards=(2, 8))
@@ -379,19 +544,23 @@ def estimate_all(ctx, case):
     """the sampled estimator on every subscript (any order) with unit weights equals the exact evaluation"""
     name, p = case["loss"], case["param"]
     fh, gh, lb = _setup(ctx, name, p)
-    A = H.build_factors(case)
+    model = H.build_model(case)
+    lam, A, unit, Aref = _estimate_refs(case, model)
     N, R = len(A), case["rank"]
-    M = H.kruskal_c(A)
-    dM = H.model_rounding(A)
+    Aw = A if unit else H.absorb(lam, A)
+    M = H.kruskal_c(Aw)
+    dM = H.model_rounding(Aw) * (1 if unit else 4)
     X = H.data_array(case, M)
     _labels(ctx, case, X)
+    _model_labels(ctx, case, model, lam)
     ctx.label("order-identity" if case["order"] == sorted(case["order"]) else "order-permuted")
     allsubs = ref.all_subs_F(case["shape"])
-    subs = np.array([allsubs[i] for i in case["order"]], dtype=int).reshape(len(case["order"]), N)
-    vals = np.array([X[tuple(s)] for s in subs], dtype=float)
-    wts = np.ones(len(subs))
-    model = H.build_model(case)
-    subs0, vals0 = subs.copy(), vals.copy()
+    subs = np.array([allsubs[i] for i in case["order"]], dtype=case.get("sdtype", "int64")).reshape(len(case["order"]), N)
+    vals = H.typed([X[tuple(s)] for s in subs], case.get("vdtype"))
+    wts = np.ones(len(subs), dtype=case.get("swdtype", "float64"))
+    ctx.label("vals-" + str(vals.dtype), "subs-" + str(subs.dtype), "sample-weights-" + str(wts.dtype))
+    subs0, vals0, wts0 = subs.copy(), vals.copy(), wts.copy()
+    ev_model = model.copy()  # (for the exact evaluation below)
     with ctx.sut("fg_est.estimate"):
         out = fg_est.estimate(model, subs, vals, wts, fh, gh)
     ctx.require(isinstance(out, tuple) and len(out) == 2, "estimate-returns-F-and-G")
@@ -399,21 +568,24 @@ def estimate_all(ctx, case):
     ctx.require(np.ndim(Fe) == 0 and isinstance(Ge, list) and len(Ge) == N
                 and all(isinstance(g, np.ndarray) and g.shape == a.shape for g, a in zip(Ge, A)),
                 "estimate-result-types-and-shapes")
-    ctx.check(np.array_equal(subs, subs0) and np.array_equal(vals, vals0) and np.array_equal(wts, np.ones(len(subs))),
-              "estimate-leaves-samples")
+    ctx.check(np.array_equal(subs, subs0) and np.array_equal(vals, vals0) and np.array_equal(wts, wts0)
+              and vals.dtype == vals0.dtype, "estimate-leaves-samples")
+    Ag = _check_model_after(ctx, model, lam, A, unit, Aref)
     with ctx.sut("fg.evaluate"):
-        Fx, Gx = fg.evaluate(H.build_model(case), ttb.tensor(X.copy(order="F"), tuple(case["shape"])), None, fh, gh)
+        Fx, Gx = fg.evaluate(ev_model, ttb.tensor(X.copy(order="F"), tuple(case["shape"])), None, fh, gh)
     pr = H.PointwiseRef(name, p, fh, gh, X, M, dM)
     tolF = _sum_tol(None, pr.f, pr.tol_f)
     ctx.check(abs(float(Fe) - float(Fx)) <= 2 * tolF, "estimate-on-all-entries-equals-evaluate[F]",
               f"{Fe!r} vs {Fx!r} tol {2 * tolF:.3g}")
-    refs = _grad_refs(A, pr.g, pr.tol_g, None, N, R)
+    ctx.check(abs(float(Fe) - float(np.sum(pr.f))) <= tolF, "estimate-objective-is-definition",
+              f"{Fe!r} vs {float(np.sum(pr.f))!r} tol {tolF:.3g}")
+    refs = _grad_refs(Ag, pr.g, pr.tol_g, None, N, R)
     for k, (Gk, tk) in enumerate(refs):
-        ctx.check(H.within(Ge[k], Gx[k], 2 * tk), "estimate-on-all-entries-equals-evaluate[G]",
-                  f"mode {k} of {case['shape']}: {H.worst(Ge[k], Gx[k], 2 * tk)}")
-        ctx.check(H.within(Ge[k], Gk, tk), "estimate-gradient-is-definition",
+        if unit:  # (the exact evaluation specifies gradients for unit-weight models only)
+            ctx.check(H.within(Ge[k], Gx[k], 2 * tk), "estimate-on-all-entries-equals-evaluate[G]",
+                      f"mode {k} of {case['shape']}: {H.worst(Ge[k], Gx[k], 2 * tk)}")
+        ctx.check(H.within(Ge[k], Gk, tk * (1 if unit else 4)), "estimate-gradient-is-definition",
                   f"mode {k} of {case['shape']}: {H.worst(Ge[k], Gk, tk)}")
-    ctx.check(abs(float(Fe) - float(np.sum(pr.f))) <= tolF, "estimate-objective-is-definition")
 
 
 @st.composite
@@ -443,6 +615,11 @@ def _estimate_samples_case(draw, tier):
         ck = draw(st.sampled_from(["none", "empty"]))  # the correction evaluates the loss at data 0: may hit the kink
     c["crng"] = None if ck == "none" else ([] if ck == "empty" else list(range(draw(st.integers(0, ns)))))
     c["outputs"] = draw(st.sampled_from(["both", "both", "F", "G"]))
+    # the model: unit weights with the check off or on, or - with the (default) lambda check on - a weighted model,
+    # which estimate documents it brings to unit weights
+    c["lambda_check"] = draw(st.sampled_from(["default", True, False]))
+    c.update(draw(H.model_state(name, shape, rank, allow_weighted=c["lambda_check"] is not False)))
+    c.update(draw(_sample_forms()))
     return c
 
 
@@ -451,33 +628,52 @@ def estimate_samples(ctx, case):
     """arbitrary sample multisets, weights and correction range against a per-sample loop"""
     name, p = case["loss"], case["param"]
     fh, gh, lb = _setup(ctx, name, p)
-    A = H.build_factors(case)
+    model = H.build_model(case)
+    lam, A, unit, Aref = _estimate_refs(case, model)
     N, R = len(A), case["rank"]
     shape = case["shape"]
     ns = len(case["subs"])
-    subs = np.array(case["subs"], dtype=int).reshape(ns, N)
-    rows = [A[k][subs[:, k], :] for k in range(N)]  # ns x R each
-    mv = np.sum(np.prod(np.stack(rows, axis=0), axis=0), axis=1) if ns else np.zeros(0)
-    dmv = 8 * (N + R) * EPS * np.sum(np.prod(np.abs(np.stack(rows, axis=0)), axis=0), axis=1) if ns else np.zeros(0)
+    subs = np.array(case["subs"], dtype=case.get("sdtype", "int64")).reshape(ns, N)
+    isubs = subs.astype(int)
+
+    def rows_of(F):
+        return [F[k][isubs[:, k], :] for k in range(N)]  # ns x R each
+
+    rows_w = rows_of(A if unit else H.absorb(lam, A))
+    mv = np.sum(np.prod(np.stack(rows_w, axis=0), axis=0), axis=1) if ns else np.zeros(0)
+    dmv = (8 if unit else 32) * (N + R) * EPS * np.sum(np.prod(np.abs(np.stack(rows_w, axis=0)), axis=0), axis=1) if ns else np.zeros(0)
     if name == "huber":
-        vals = mv + np.array([s * r for s, r in case["offsets"]], dtype=float).reshape(ns) * p
+        vals = mv + np.array([s_ * r for s_, r in case["offsets"]], dtype=float).reshape(ns) * p
     else:
         vals = np.array(case["vals"], dtype=float).reshape(ns)
     wts = np.array(case["sweights"], dtype=float).reshape(ns)
     crng = None if case["crng"] is None else np.array(case["crng"], dtype=int)
+    lc = case.get("lambda_check", False)
     ctx.label("loss-" + name, "samples-" + case["size"], *gen.shape_classes(shape),
-              "crng-" + ("none" if crng is None else ("empty" if crng.size == 0 else "prefix")), "out-" + case["outputs"])
+              "crng-" + ("none" if crng is None else ("empty" if crng.size == 0 else "prefix")), "out-" + case["outputs"],
+              f"lambda_check-{lc}")
+    _model_labels(ctx, case, model, lam)
     if ns and len({tuple(s) for s in case["subs"]}) < ns:
         ctx.label("repeated-subscripts")
     ctx.nt = N >= 3 and R >= 2 and ns >= 2 and len(set(case["vals"] or [0, 1])) >= 2
-    model = H.build_model(case)
     want_f = case["outputs"] in ("both", "F")
     want_g = case["outputs"] in ("both", "G")
-    a_subs, a_vals, a_wts = subs.copy(), vals.copy(), wts.copy()
+    a_subs = subs.copy()
+    a_vals = H.typed(vals, case.get("vdtype"))
+    a_wts = H.typed(wts, case.get("swdtype")) if case.get("swdtype") == "int64" else wts.copy()
+    ctx.label("vals-" + str(a_vals.dtype), "subs-" + str(a_subs.dtype), "sample-weights-" + str(a_wts.dtype))
+    vals_in, wts_in = a_vals.copy(), a_wts.copy()
     a_crng = None if crng is None else crng.copy()
     with ctx.sut("fg_est.estimate"):
-        out = fg_est.estimate(model, a_subs, a_vals, a_wts, fh if want_f else None, gh if want_g else None,
-                              False, a_crng)
+        if lc == "default":
+            if a_crng is None:
+                out = fg_est.estimate(model, a_subs, a_vals, a_wts, fh if want_f else None, gh if want_g else None)
+            else:
+                out = fg_est.estimate(model, a_subs, a_vals, a_wts, fh if want_f else None, gh if want_g else None,
+                                      crng=a_crng)
+        else:
+            out = fg_est.estimate(model, a_subs, a_vals, a_wts, fh if want_f else None, gh if want_g else None,
+                                  lc, a_crng)
     if want_f and want_g:
         ctx.require(isinstance(out, tuple) and len(out) == 2, "estimate-returns-F-and-G")
         Fe, Ge = out
@@ -485,9 +681,11 @@ def estimate_samples(ctx, case):
         Fe, Ge = out, None
     else:
         Fe, Ge = None, out
-    ctx.check(np.array_equal(a_subs, subs) and np.array_equal(a_vals, vals) and np.array_equal(a_wts, wts)
-              and (crng is None or np.array_equal(a_crng, crng)), "estimate-leaves-samples")
-    ctx.check(all(np.array_equal(a, b) for a, b in zip(model.factor_matrices, A)), "estimate-leaves-model")
+    ctx.check(np.array_equal(a_subs, subs) and np.array_equal(a_vals, vals_in) and a_vals.dtype == vals_in.dtype
+              and np.array_equal(a_wts, wts_in) and (crng is None or np.array_equal(a_crng, crng)), "estimate-leaves-samples")
+    Ag = _check_model_after(ctx, model, lam, A, unit, Aref)
+    rows = rows_of(Ag)
+    slack = 1 if unit else 4
     inc = np.zeros(ns, dtype=bool)
     if crng is not None and crng.size:
         inc[crng] = True
@@ -523,7 +721,9 @@ def estimate_samples(ctx, case):
             Gk = np.zeros(A[k].shape)
             Tk = np.zeros(A[k].shape)
             for i in range(ns):  # per-sample accumulation: my loop, no sparse matrix
-                Gk[subs[i, k], :] += wts[i] * y[i] * Z[i]
-                Tk[subs[i, k], :] += wts[i] * (ty[i] + 64 * (ns + N) * EPS * ay[i]) * np.abs(Z[i])
+                Gk[isubs[i, k], :] += wts[i] * y[i] * Z[i]
+                Tk[isubs[i, k], :] += wts[i] * (ty[i] + slack * 64 * (ns + N) * EPS * ay[i]) * np.abs(Z[i])
             ctx.check(H.within(Ge[k], Gk, Tk + 1e-300), "estimate-gradient-is-weighted-sample-sum",
                       f"mode {k} of {shape}: {H.worst(Ge[k], Gk, Tk)}")
+
+
